@@ -115,7 +115,7 @@ def reweight_case(draw, tier):
     d = draw(weight_and_obs(tier))
     d['all_configs'] = draw(st.booleans())
     d['api'] = draw(st.sampled_from(['function', 'function', 'method', 'corr']))
-    d['then'] = draw(st.sampled_from(['none', 'add', 'radd', 'rmul', 'sin', 'mul']))
+    d['then'] = draw(st.sampled_from(['none', 'add', 'radd', 'rmul', 'sin', 'mul', 'matrix']))
     return d
 
 
@@ -149,6 +149,13 @@ def reweight_oracle(spec):
         d = objs[-1] + r0          # the reweighted operand is not the first one
     elif spec['then'] == 'rmul':
         d = objs[-1] * (objs[0] - r0)
+    elif spec['then'] == 'matrix':
+        # the flag is inherited through matrix-valued operations as well
+        m = pe.linalg.matmul(np.array([[r0, 0.5 * objs[0]], [objs[0], 2.0 + r0]]), np.array([[objs[0], r0], [r0, objs[0]]]))
+        inv = pe.linalg.inv(np.array([[2.0 + r0 * r0, 0.1 * r0], [0.1 * objs[0], 3.0 + objs[0] * objs[0]]]))
+        for q in list(m.ravel()) + list(inv.ravel()):
+            require(q.reweighted is True or q.reweighted == True, 'reweighted flag not inherited by a matrix operation', q.reweighted)  # noqa: E712
+        d = m[0, 0]
     elif spec['then'] == 'sin':
         d = np.sin(r0)
     elif spec['then'] == 'mul':
@@ -246,7 +253,7 @@ def merge_oracle(spec):
     return {'nt': len(spec['chains']) >= 3 and len(parts) >= 2, 'cls': ['groups:%d' % len(parts), 'chains:%d' % len(spec['chains'])]}
 
 
-REJECT = ['cfg_missing_in_w', 'replica_missing_in_w', 'cov_in_obs', 'other_ensemble', 'correlate_idl', 'correlate_names',
+REJECT = ['correlate_replica_subset', 'cfg_missing_in_w', 'replica_missing_in_w', 'cov_in_obs', 'other_ensemble', 'correlate_idl', 'correlate_names',
           'correlate_cov', 'correlate_len', 'merge_dup', 'merge_cov', 'multi_ensemble_weight']
 
 
@@ -308,6 +315,14 @@ def reject_oracle(spec):
             b = copy.deepcopy(wsp)
             b['chains'][0]['name'] = b['chains'][0]['name'] + 'x'
             return pe.correlate(a, build_obs(b))
+        if kind == 'correlate_replica_subset':
+            # one operand lives on a strict subset of the other's replicas (same configuration lists there): different chains
+            e = wsp['chains'][0]['name'].split('|')[0]
+            b = copy.deepcopy(wsp)
+            b['chains'].append({'name': e + '|zz_extra', 'idl': list(range(1, 9)), 'form': 'list',
+                                'data': {'kind': 'white', 'seed': k, 'mean': 1.0, 'sigma': 0.3}})
+            big = build_obs(b)
+            return pe.correlate(a, big) if k % 2 else pe.correlate(big, a)
         if kind == 'correlate_cov':
             return pe.correlate(a, a + pe.cov_Obs(0.3, 0.1, 'syst'))
         if kind == 'merge_dup':
